@@ -187,7 +187,7 @@ func tunOnce(init, role, tgt int, closers []string, it int) string {
 	}
 	if hasE {
 		// the copy goroutine closes the tunnel on its own; wait for it
-		deadline := time.Now().Add(5 * time.Second)
+		deadline := time.Now().Add(patient())
 		for tn.GetState() != ctunnel.TunnelStateClosed && time.Now().Before(deadline) {
 			time.Sleep(50 * time.Microsecond)
 		}
@@ -195,7 +195,7 @@ func tunOnce(init, role, tgt int, closers []string, it int) string {
 	localB.Close()
 	tunnelB.Close()
 	// later operations must not panic and must be no-ops
-	late := withWatchdog(5*time.Second, func() string {
+	late := withWatchdog(patient(), func() string {
 		tn.Close(ctunnel.CloseReasonNormal, nil)
 		tn.NotifyPeerClosed("late", nil)
 		_ = tn.GetStats()
@@ -207,7 +207,7 @@ func tunOnce(init, role, tgt int, closers []string, it int) string {
 	reg := mgr.CountTunnels()
 	mgr.Close()
 	cancel()
-	g, _ := leaked(base, 3*time.Second)
+	g, _ := leaked(base, leakWait())
 	reason := -1
 	nreasons := 0
 	reasons.Range(func(k, _ any) bool { reason = k.(int); nreasons++; return true })
